@@ -55,7 +55,7 @@ func c08SchedSetup(arg json.RawMessage) (func(), func(vrt.Result) (string, strin
 		wg.Add(len(a.Objs))
 		for i, o := range a.Objs {
 			i, o := i, o
-			vrt.Go(func() {
+			vrt.Go("harness", func() {
 				errs[i] = im.store.Push(im.objs[o].b)
 				wg.Done()
 			})
